@@ -135,7 +135,14 @@ def load_linter_config(
         config = load_linter_config(context, "srp", SRPConfig)
     """
     metadata = get_metadata(context)
-    config_dict = metadata.get(config_key, {})
+    config_dict = metadata.get(config_key)
+    if config_dict is None:
+        # The config loader normalises section names to underscores; users (and callers
+        # of this function) may spell them with hyphens. Accept either spelling.
+        alternate_key = (
+            config_key.replace("-", "_") if "-" in config_key else config_key.replace("_", "-")
+        )
+        config_dict = metadata.get(alternate_key, {})
 
     if not isinstance(config_dict, dict):
         return config_class()
